@@ -60,6 +60,9 @@ pub trait FieldApi: Copy + Send + 'static {
     fn cswap(a: &mut Self, b: &mut Self, ctl: u32);
     /// constant-time lookup of `width` consecutive entries at index j in a table of 16*width elements
     fn lookup16(_tab: &[Self], _width: usize, _j: u32) -> Option<Vec<Self>> { None }
+    /// products of two not-reduced values (GF255): form f applied to (a, b, c) gives a pair (or a single value) of
+    /// GF255NotReduced; the selected one is multiplied by the selected one of form g applied to (d, e, f2), or squared
+    fn nrmul(_f: u32, _x: [Self; 3], _g: u32, _y: [Self; 3], _v: u32) -> Option<Self> { None }
 }
 
 fn limbs4(b: &[u8]) -> [u64; 4] {
@@ -258,6 +261,27 @@ macro_rules! gf255_impl {
             sqrt_both!();
             split_i128!();
             enc32!($t);
+            fn nrmul(f: u32, x: [Self; 3], g: u32, y: [Self; 3], v: u32) -> Option<Self> {
+                let nr = |f: u32, x: [Self; 3]| match f {
+                    0 => x[0].add_noreduce(&x[1]),
+                    1 => x[0].sub_noreduce(&x[1]),
+                    2 => x[0].mul2_noreduce(),
+                    3 => x[0].mul2add_mul2sub_noreduce(&x[1]).0,
+                    4 => x[0].mul2add_mul2sub_noreduce(&x[1]).1,
+                    5 => x[0].add_addsub_noreduce(&x[1], &x[2]).0,
+                    6 => x[0].add_addsub_noreduce(&x[1], &x[2]).1,
+                    7 => x[0].sub_subadd2_noreduce(&x[1], &x[2]).0,
+                    _ => x[0].sub_subadd2_noreduce(&x[1], &x[2]).1,
+                };
+                let a = nr(f, x);
+                Some(match v % 5 {
+                    0 => a * nr(g, y),
+                    1 => y[0] * a,
+                    2 => a * y[0],
+                    3 => a.square(),
+                    _ => { let mut t = y[0]; t *= a; t }
+                })
+            }
             fn lookup16(tab: &[Self], width: usize, j: u32) -> Option<Vec<Self>> {
                 Some(if width == 3 { <$t>::lookup16_x3(<&[$t; 48]>::try_from(tab).unwrap(), j).to_vec() }
                      else { <$t>::lookup16_x4(<&[$t; 64]>::try_from(tab).unwrap(), j).to_vec() })
@@ -879,6 +903,17 @@ impl<'a, F: FieldApi> Mach<'a, F> {
         }
     }
 
+    fn nrmul(&mut self, dst: usize, f: u32, xs: [usize; 3], g: u32, ys: [usize; 3], v: u32) -> bool {
+        let x = [self.regs[xs[0]], self.regs[xs[1]], self.regs[xs[2]]];
+        let y = [self.regs[ys[0]], self.regs[ys[1]], self.regs[ys[2]]];
+        let e = Ev::new("nrmul").n("f", f as i64).nn("xs", &[xs[0] as i64, xs[1] as i64, xs[2] as i64])
+            .n("g", g as i64).nn("ys", &[ys[0] as i64, ys[1] as i64, ys[2] as i64]).n("v", (v % 5) as i64);
+        match guarded(move || F::nrmul(f, x, g, y, v)) {
+            Ok(None) => true,
+            Ok(Some(r)) => self.put(dst, e, Ok(r)),
+            Err(m) => self.put(dst, e, Err(m)),
+        }
+    }
     fn batch_invert(&mut self, rs: &[usize]) -> bool {
         let mut xx: Vec<F> = rs.iter().map(|&i| self.regs[i]).collect();
         let idx: Vec<i64> = rs.iter().map(|&i| i as i64).collect();
@@ -1002,12 +1037,12 @@ fn draw(rng: &mut Rng, profile: &str) -> usize {
     match profile {
         // C01: constructors, ring operations, observations
         "ring" => *rng.pick(&[0, 1, 2, 3, 4, 5, 6, 7, 8, 9, 10, 11, 12, 13, 14, 15, 16, 17, 18, 19,
-                              20, 21, 22, 23, 24, 25, 26, 27, 28, 29, 33, 34]),
+                              20, 21, 22, 23, 24, 25, 26, 27, 28, 29, 33, 34, 41, 41]),
         // C20: selection primitives between differently represented values
         "select" => *rng.pick(&[0, 1, 4, 9, 14, 27, 28, 28, 29, 29, 30, 30, 30, 31, 31, 31, 32, 32, 32, 33, 34, 40, 40]),
         // C12: division-like operations fed by ring results
         "div" => *rng.pick(&[0, 4, 9, 14, 21, 27, 35, 35, 35, 36, 36, 37, 37, 38, 38, 39]),
-        _ => rng.below(41),
+        _ => rng.below(42),
     }
 }
 
@@ -1068,6 +1103,7 @@ fn random_op<F: FieldApi>(m: &mut Mach<F>, rng: &mut Rng, q: &BigUint, profile: 
             while rs.len() < n { let r = rng.below(NREG); if !rs.contains(&r) { rs.push(r); } }
             m.batch_invert(&rs)
         }
+        41 => m.nrmul(d, rng.below(9) as u32, [a, b, rng.below(NREG)], rng.below(9) as u32, [rng.below(NREG), rng.below(NREG), rng.below(NREG)], v),
         40 => {
             let j = *rng.pick(&[0u32, 1, 2, 7, 14, 15, 16, 17, 31, 32, 255, 256, 1 << 16, 1 << 31, u32::MAX, v & 15, v & 15]);
             m.lookup(if v & 16 == 0 { 3 } else { 4 }, j);
